@@ -240,9 +240,13 @@ sys.exit(0)
             goals["mirror"] = z3.And(o["lt_ab"] == o["gt_ba"], o["gt_ab"] == o["lt_ba"],
                                      o["le_ab"] == o["ge_ba"], o["ge_ab"] == o["le_ba"])
             goals["trichotomy"] = z3.PbEq([(o["lt_ab"], 1), (o["eq_ab"], 1), (o["gt_ab"], 1)], 1)
+        # witnesses are looked for outside the zone the replay treats as a rounding tie first
+        far = [absz(X - Y) > symnum.q(4e-7) * (absz(X) + absz(Y) + (1 if affine is not None else 0))]
         for g, goal in goals.items():
             acc.prove(case, p, goal, f"{cfg}#p{i}:{g}", key, f"C12:quantity:{uc}|{vc}:{g}",
-                      f"{g} fails for {cfg}", replay(g))
+                      f"{g} fails for {cfg}", replay(g),
+                      shape_extra=far if g.startswith("physical-order") else (),
+                      soft_fallback=g.startswith("physical-order"))
         # hash: on a path where a == b holds, hashes must agree; with different unit objects
         # hash((x, U)) != hash((y, V)) unless by accident -> ask the solver for a witness
         hgoal = z3.Implies(o["eq_ab"], z3.BoolVal(U is V))
@@ -451,7 +455,8 @@ sys.exit(0)
             acc.prove(case, p, z3.Implies(far, z3.And(z3.Not(o["eq_ab"]), z3.Not(o["eq_ba"]))),
                       f"{cfg}#p{i}:both-orders-differ-away-from-ties", key,
                       f"C12:level:{shape}:eq-asymmetric", f"a == b or b == a holds for clearly different values, {cfg}",
-                      replay, shape_extra=[real(case.vars["l"]) == 0])
+                      replay, shape_extra=[real(case.vars["l"]) == 0],
+                      soft_fallback=True)   # away from l == 0 the witness rests on the uninterpreted exp
         elif shape == "LM" or same_unit or shape == "LL":
             acc.prove(case, p, o["eq_ab"] == o["eq_ba"], f"{cfg}#p{i}:symmetric", key,
                       f"C12:level:{shape}:eq-asymmetric", f"(a == b) != (b == a) for {cfg}",
